@@ -15,9 +15,7 @@ package mp4
 //@ pred boxOK@ColrBox(b *ColrBox) = len(b.ColorType) == 4
 
 // ---------------------------------------------------------------- cslg
-// FINDING: DecodeCslgSR (cslg.go:34-51) accepts any version byte; for Version >= 2 Size() (32+20*Version in uint8, cslg.go:63)
-// and EncodeSW (52 bytes, cslg.go:85-97) disagree. Not established by the decoder; test TestC02aCslgVersion2.
-// (repaired by a fix: commit; no representation invariant needed any more)
+// no representation invariant needed (Size() repaired: every non-zero version counts the 64-bit layout, as decoder and EncodeSW do)
 
 // ---------------------------------------------------------------- ctts
 // 32-bit entry count: DecodeCttsSR makes SampleOffset with a uint32 length (ctts.go:47); EndSampleNr has one element more
@@ -62,12 +60,12 @@ package mp4
 
 // ---------------------------------------------------------------- leva
 // no representation invariant needed; Size() has a loop and gets a contract in terms of levaSum
-//@ spec levaLvl(t byte) uint64 = ite(t == 0 || t == 4, uint64(9), ite(t == 1, uint64(13), uint64(5)))
+//@ spec levaLvlB(t byte) uint64 = ite(t == 0 || t == 4, uint64(9), ite(t == 1, uint64(13), uint64(5)))
 //@ func (LevaLevel).Size
 //@   inline
 //@ func (LevaLevel).AssignmentType
 //@   inline
-//@ spec rec levaSum(s []LevaLevel, n int) uint64 = ite(n <= 0, uint64(0), levaSum(s, n-1) + levaLvl(s[n-1].paddingAndAssignmentType & 0x7f))
+//@ spec rec levaSum(s []LevaLevel, n int) uint64 = ite(n <= 0, uint64(0), levaSum(s, n-1) + levaLvlB(s[n-1].paddingAndAssignmentType & 0x7f))
 //@ func (*LevaBox).Size
 //@   pure
 //@   ensures result == 13 + levaSum(b.Levels, len(b.Levels))
@@ -92,21 +90,15 @@ package mp4
 //@   loop 2 invariant adv(sw, louHead(b) + louSum(b.LoudnessBases, a, b.Version >= 1) + ite(b.Version >= 1, 8, 7) + 3*i)
 
 // ---------------------------------------------------------------- mvhd
-// FINDING: DecodeMvhdSR (mvhd.go:62-72) accepts any version byte and treats version >= 2 as version 0, Size() (mvhd.go:88-93)
-// likewise, but EncodeSW (mvhd.go:114-124) writes the 64-bit layout (120 bytes) for every version != 0.
-// Not established by the decoder; test TestC02aMvhdVersion2.
-// (repaired by a fix: commit; no representation invariant needed any more)
+// no representation invariant needed (EncodeSW repaired: the 64-bit layout is written for version 1 only, as in decoder and Size())
 
 // ---------------------------------------------------------------- prft
-// FINDING: DecodePrftSR (prft.go:61-71) and CreatePrftBox (prft.go:39) accept any version byte; for Version >= 2 Size()
-// (28+4*Version, prft.go:90) and EncodeSW (32 bytes, prft.go:114-118) disagree. Not established by the decoder; test TestC02aPrftVersion2.
-// (repaired by a fix: commit; no representation invariant needed any more)
+// no representation invariant needed (Size() repaired: every non-zero version counts the 64-bit NTP/media time layout)
 
 // ---------------------------------------------------------------- pssh
 // SystemID and every KID are read with ReadFixedLengthString(16) by the decoder (pssh.go:102, 106; a short read is an error result).
-// FINDING: the constructor NewPsshBox (pssh.go:57, 72) does NOT establish it: NewUUIDFromString -> UnpackKey (uuid.go:399-403)
-// accepts any 24-character base64 string, which decodes to 18 bytes when unpadded; Size() then counts 16 bytes per UUID and
-// EncodeSW writes 18. Test TestC02aPsshBase64SystemID.
+// The constructor NewPsshBox (pssh.go:57, 72) goes through NewUUIDFromString -> UnpackKey, which since its repair rejects every
+// key that is not 16 bytes (uuid.go:413-415).
 //@ pred boxOK@PsshBox(b *PsshBox) = len(b.SystemID) == 16 && (forall i int :: 0 <= i && i < len(b.KIDs) ==> len(b.KIDs[i]) == 16)
 //@ func (*PsshBox).EncodeSW
 //@   loop 1 invariant b.Version > 0 && adv(sw, 32 + 16*idx(1))
@@ -153,7 +145,6 @@ package mp4
 //@   ensures[C02] result1 == nil ==> boxOK(result0)
 //@ func DecodeLoudnessBaseBoxSR
 //@   ensures[C02] result1 == nil ==> boxOK(result0)
-// (DecodeCslgSR, DecodeMvhdSR, DecodePrftSR do not establish boxOK: with the clause added the post fails with a counterexample, see FINDINGs)
 //@ func DecodeCo64SR
 //@   ensures[C02] result1 == nil ==> boxOK(result0)
 //@   loop 1 invariant len(b.ChunkOffset) == int(nrEntries)
